@@ -2,10 +2,19 @@
 from lib.checkdef import default_replay_cmd, run_property
 
 
+def _replay(rep, r):
+    if "failed_op_releases" in r.name:
+        from checks.C13 import _replay_op
+
+        return _replay_op(rep, r)
+    return None, False, "structural obligation: no input to replay"
+
+
 def run(tier, seed):
     return run_property(
         "C08", tier, seed, level="other",
         deductive=[("c08_locks", None), ("c08_sets", None), ("c_op", r"^C08\.op"), ("c13_inplace", r"^C08\.inplace")],
+        replay=_replay,
         bounded=[("state_bounded.py", ["--check", "C08"])],
         trusted=[
             "pyvc/heapdom.py encoding of dict / Counter / defaultdict(set) keyed by id()",
